@@ -36,6 +36,7 @@ def handle (op : String) (args : List String) : Option String :=
     if !allDone s then some "model-schedule-incomplete" else
     let r := rets s
     some s!"init zero={(r.filter (· == 0)).length} one={(r.filter (· == 1)).length} other={(r.filter (fun x => x != 0 && x != 1)).length} early={early}"
+  | "thr.closebuf", [n] => do let n ← n.toNat?; if n > 2 ^ 16 then none else some s!"ok {n}"
   | "thr.rand", [n] => do let n ← n.toNat?; if n > 2 ^ 20 then none else some s!"ok {n}"
   | "thr.uniform", [ub, k] => do let ub ← ub.toNat?; let _ ← k.toNat?; if ub > 0xffffffff then none else some "ok"
   | "thr.alloc", [n, f] => do let n ← n.toNat?; let _ ← f.toNat?; if n > 2 ^ 22 then none else some "ok 0"
